@@ -93,6 +93,53 @@ class BuildBroken(Exception):
     """The harness no longer builds against /repo: correspondence broken."""
 
 
+class ImplCrash(CheckBroken):
+    """The harness process died with a Go panic / fatal error whose stack has an fs_db frame, or stopped answering:
+    a statement about fs_db (the implementation panics or hangs on a valid input), reported as a violation by ./check."""
+
+    def __init__(self, binary, cmd, lines, extra, stderr, kind):
+        CheckBroken.__init__(self, "%s %s: implementation %s: %s" % (os.path.basename(binary), cmd, kind, stderr[-1500:]))
+        self.binary, self.cmd, self.lines, self.extra, self.stderr, self.kind = binary, cmd, list(lines), list(extra), stderr, kind
+
+
+def impl_crash_kind(rc, err):
+    """classify a failed harness run: 'panic' if the Go runtime died inside fs_db code, 'hang' on timeout, else None"""
+    if rc == 124:
+        return "hang"
+    if "panic:" in err or "fatal error:" in err:
+        first = err.split("\n\ngoroutine ")[1] if "\n\ngoroutine " in err else err
+        frames = [l for l in first.split("\n") if l.startswith("github.com/glebziz/fs_db/")]
+        frames = [f for f in frames if "/internal/verifhook" not in f and "/pkg/verifapi" not in f]
+        if frames or "all goroutines are asleep" in err:
+            return "panic"
+    return None
+
+
+def isolate_crash(ex, timeout=120):
+    """search for one case (a 'case..end' block or a single line) on which the harness dies the same way"""
+    blocks, cur = [], []
+    for l in ex.lines:
+        if l.startswith("case "):
+            cur = [l]
+        elif cur:
+            cur.append(l)
+            if l == "end":
+                blocks.append(cur)
+                cur = []
+        else:
+            blocks.append([l])
+    if len(blocks) <= 1:
+        return ex.lines, ex.stderr
+    for b in blocks[:400]:
+        try:
+            run_lines(ex.binary, ex.cmd, b, timeout=timeout, extra_args=ex.extra)
+        except ImplCrash as e2:
+            return b, e2.stderr
+        except CheckBroken:
+            continue
+    return ex.lines, ex.stderr
+
+
 # --------------------------------------------------------------------------
 # Coq side
 
@@ -217,6 +264,9 @@ def run_lines(binary, cmd, lines, timeout=600, extra_args=(), env=None):
             f.write("\n".join(lines) + "\n")
         rc, out, err = sh2([binary, cmd, p] + list(extra_args), timeout=timeout, env=env)
         if rc != 0:
+            kind = impl_crash_kind(rc, err) if os.path.basename(binary).startswith("fsdbh") else None
+            if kind:
+                raise ImplCrash(binary, cmd, lines, extra_args, err, kind)
             raise CheckBroken("%s %s failed rc=%s: %s" % (os.path.basename(binary), cmd, rc, (err or out)[-3000:]))
         res = [l for l in out.split("\n") if l.strip() != ""]
         return res
